@@ -1538,6 +1538,13 @@ class Shape:
             if tgt is not None and isinstance(tgt.elem, Q) and tgt.elem.poly and isinstance(ve, (Q, Ix)) and not (isinstance(ve, Q) and ve.poly):
                 literal = isinstance(s, ast.Assign) and (isinstance(s.value, ast.Constant) or const_value(s.value) is not None)
                 if not literal and not (isinstance(ve, Q) and not ve.dim and not ve.tags and isinstance(getattr(s, 'value', None), ast.Attribute)):
+                    # a freshly allocated buffer filled through an index ARRAY holds the stored values only at the indexed positions, the fill value elsewhere
+                    try:
+                        k_ = self.ev(t.slice, env)
+                    except Exception:
+                        k_ = None
+                    if isinstance(ve, Q) and isinstance(k_, Arr) and isinstance(k_.elem, (Ix, BoolT)):
+                        ve = Q(ve.dim, ve.tags | {'partialfill'})
                     tgt.elem = ve
                     for w_ in views:
                         w_.elem = ve
